@@ -163,7 +163,27 @@ fn fields_src(r: &Record, named: bool, vis: &str) -> String {
         .join(if named { "" } else { ", " })
 }
 
+/// Declarations whose name starts with "Tpl" are produced by a `macro_rules!` template that receives the field types
+/// as `ty` fragments (such types reach the derive macro wrapped in an invisible group).
 pub fn decl_src(d: &Decl) -> String {
+    if let (true, DeclBody::Struct(r)) = (d.name.starts_with("Tpl"), &d.body) {
+        let mut body = decl_src_plain(d);
+        let mut params = std::vec::Vec::new();
+        let mut args = std::vec::Vec::new();
+        for (i, f) in r.fields.iter().enumerate() {
+            let from = format!("pub {}: {},", f.name, field_ty(f));
+            let to = format!("pub {}: $t{i},", f.name);
+            assert!(body.contains(&from), "templated field not found: {from}");
+            body = body.replacen(&from, &to, 1);
+            params.push(format!("$t{i}:ty"));
+            args.push(field_ty(f));
+        }
+        return format!("macro_rules! mk_{0} {{\n    ({1}) => {{\n{2}    }};\n}}\nmk_{0}!({3});\n", d.name.to_lowercase(), params.join(", "), body, args.join(", "));
+    }
+    decl_src_plain(d)
+}
+
+fn decl_src_plain(d: &Decl) -> String {
     let mut s = String::from("#[derive(Debug, Clone, PartialEq, desert::BinaryCodec)]\n");
     match &d.body {
         DeclBody::Struct(r) => {
